@@ -10,7 +10,8 @@
 // integers:  no negative balance/frozen; an error changes nothing; an accepted op has exactly
 // its intended effect (=> supply changes only by mint/burn/issue/genesis amounts, the exec
 // equation  balance(exec) - sum(sub-accounts)  moves only as intended); all case spellings of
-// a hex address read one record and records live only under canonical keys.
+// a hex address read one record and records live only under canonical keys; all case spellings
+// of a hex exec address name one sub-ledger.
 package main
 
 import (
@@ -653,6 +654,27 @@ func (w *world) checkSpellings(o op, subs [][2]string, mains []string) {
 		}
 		out.Stat("spelling_groups_compared", 1)
 	}
+	// the exec-address argument: every letter-case spelling of a hex exec address must name the
+	// same sub-ledger (the main record of the exec address is shared by all of them)
+	for _, p := range subs {
+		vs := variants(p[1])
+		if len(vs) < 2 {
+			continue
+		}
+		ref := w.acc.LoadExecAccount(p[0], p[1])
+		out.Stat("exec_spelling_groups_compared", 1)
+		for _, v := range vs {
+			x := w.acc.LoadExecAccount(p[0], v)
+			if x.Balance != ref.Balance || x.Frozen != ref.Frozen {
+				// not tainting: the abstract ledger of this harness keys sub-ledgers by the spelling
+				// as well, so the other predicates stay meaningful
+				out.Pred("C15|execAccountKey|exec-address-spelling-names-different-sub-ledger",
+					fmt.Sprintf("after %s: account %s under exec %s -> %d/%d but under exec %s -> %d/%d (main record of both exec spellings: %d)",
+						o.line(), p[0], p[1], ref.Balance, ref.Frozen, v, x.Balance, x.Frozen, w.acc.LoadAccount(v).Balance))
+				break
+			}
+		}
+	}
 }
 
 // exec runs one op: emits the observation line and evaluates the predicates.
@@ -740,7 +762,11 @@ var (
 
 func (p *pool) user(r *gen.Rand) string { return p.users[r.Intn(len(p.users))] }
 func (p *pool) exec(r *gen.Rand) string {
-	return p.execs[r.Pick(4, 3, 3, 1)]
+	e := p.execs[r.Pick(4, 3, 3, 1)]
+	if hexShape(e) && r.Chance(1, 5) {
+		return respell(r, e) // the exec-address argument in another letter case
+	}
+	return e
 }
 
 // other spelling of the same account, when there is one.
@@ -801,7 +827,11 @@ func (w *world) funded(r *gen.Rand, sub bool) (string, string, bool) {
 		return respell(r, k), "", true
 	}
 	i := strings.IndexByte(k, ':')
-	return respell(r, k[i+1:]), k[:i], true
+	e := k[:i]
+	if hexShape(e) && r.Chance(1, 8) {
+		e = respell(r, e)
+	}
+	return respell(r, k[i+1:]), e, true
 }
 
 func (w *world) genOp(r *gen.Rand, p *pool, rich bool) op {
